@@ -30,6 +30,15 @@ type Ev = FromSync<TopicLogSyncEvent<Ext>>;
 
 const CONSUMER_CAP: usize = 1024; // DeduplicationBuffer::default() in ManagerEventStreamState
 
+/// `CHANNEL_BUFFER` of p2panda-sync/src/manager/mod.rs (private), read from the source text the
+/// harness is compiled against: capacity of every session's live channel and event channel.
+fn channel_buffer() -> usize {
+    let src = include_str!("/repo/p2panda-sync/src/manager/mod.rs");
+    let key = "static CHANNEL_BUFFER: usize =";
+    let i = src.find(key).expect("CHANNEL_BUFFER in manager/mod.rs");
+    src[i + key.len()..].trim_start().chars().take_while(|c| c.is_ascii_digit() || *c == '_').filter(|c| *c != '_').collect::<String>().parse().expect("CHANNEL_BUFFER value")
+}
+
 #[derive(Clone, Debug)]
 struct SessSpec {
     sid: u64,
@@ -408,7 +417,7 @@ fn oracle(out: &mut Out, n: u64, req: &str, ans: &str, sess: &[SessSpec], acts: 
         }
     }
     // (d) forward to all others / report once — for quiesced flows whose windows cannot overflow
-    if quiesced && no_evict_c && sess.iter().all(|s| distinct.len() <= s.cap && s.live) {
+    if quiesced && sess.iter().all(|s| distinct.len() <= s.cap && s.live) {
         for s in sess.iter().filter(|s| s.live) {
             let pubs = published_on_topic.get(&s.topic).unwrap_or(&empty);
             for x in topic_in.get(&s.topic).unwrap_or(&empty) {
@@ -422,7 +431,7 @@ fn oracle(out: &mut Out, n: u64, req: &str, ans: &str, sess: &[SessSpec], acts: 
                 if from_others && !own && !o.sent[&s.sid].contains(x) {
                     out.oracle_fail(n, "not-forwarded", &format!("operation {x} received on topic {} was never sent by live session {}", s.topic, s.sid), req, ans);
                 }
-                if !o.reports.iter().any(|r| r.1 == *x) {
+                if no_evict_c && !o.reports.iter().any(|r| r.1 == *x) {
                     out.oracle_fail(n, "not-reported", &format!("operation {x} was never reported to the consumer"), req, ans);
                 }
             }
@@ -694,8 +703,62 @@ fn main() {
         }
         emit(&rt, &store, &pool, &mut out, &sess, &acts, true, true);
     }
+    // back-pressure: one live session does not drain its live channel while more than the channel's
+    // capacity of new operations arrive through another session. `next_event` has to wait for room
+    // (hand-polled: it stays Pending), resumes when the slow session drains, and afterwards the slow
+    // session must have sent every operation exactly once.
+    let n_back = match args.tier {
+        Tier::Quick => 1,
+        Tier::Thorough => 4,
+        Tier::Search => 2,
+    };
+    let chan = channel_buffer();
+    out.extra.insert("live_channel_capacity_from_source".into(), (chan as u64).into());
+    for i in 0..n_back {
+        let three = i % 2 == 1;
+        let mut sess = vec![
+            SessSpec { sid: 7, topic: 0, live: true, cap: 4096 },
+            SessSpec { sid: 9, topic: 0, live: true, cap: 4096 },
+        ];
+        if three {
+            sess.push(SessSpec { sid: 11, topic: 0, live: true, cap: 4096 });
+        }
+        let mut acts = vec![];
+        for s in &sess {
+            acts.push(Act::Y(s.sid, vec![]));
+            acts.push(Act::C(s.sid));
+        }
+        let total = (chan + rng.range(8, 90) as usize).min(pool.ops.len());
+        let mut k = 0;
+        while k < total {
+            for _ in 0..rng.range(5, 40) {
+                if k < total {
+                    acts.push(Act::R(7, k));
+                    k += 1;
+                }
+            }
+            acts.push(Act::S(7));
+            acts.push(Act::C(7)); // session 9 is never polled here: its live channel fills up
+            if three {
+                acts.push(Act::S(11));
+                acts.push(Act::C(11));
+            }
+        }
+        // the slow session wakes up; the event stream resumes; everybody drains
+        for _ in 0..3 {
+            acts.push(Act::S(9));
+            acts.push(Act::C(9));
+            acts.push(Act::C(7));
+            if three {
+                acts.push(Act::S(11));
+                acts.push(Act::C(11));
+            }
+        }
+        out.count("back-pressure flow (burst > live channel capacity into an undrained session)");
+        emit(&rt, &store, &pool, &mut out, &sess, &acts, true, true);
+    }
     out.finish(
-        "real TopicSyncManager with 2-5 sessions (some without live mode) on 1-2 topics, session windows 1/2/3/1024, consumer window 1024; flows of remote Live messages (duplicates through several sessions), operations published through session_handle, hand-polled session futures and manager event stream in the interleaving given by the request; one flow family with > 1024 distinct operations to overflow the consumer window. non-trivial = one operation reaches the node through >= 2 sessions and a window eviction is visible (an operation re-sent on a session or re-reported)",
+        "real TopicSyncManager with 2-5 sessions (some without live mode) on 1-2 topics, session windows 1/2/3/1024, consumer window 1024; flows of remote Live messages (duplicates through several sessions), operations published through session_handle, hand-polled session futures and manager event stream in the interleaving given by the request; one flow family with > 1024 distinct operations to overflow the consumer window; one family with a burst larger than the live channel's capacity (read from the source) into a session that is not polled, then drained (back-pressure: nothing may be lost). non-trivial = one operation reaches the node through >= 2 sessions and a window eviction is visible (an operation re-sent on a session or re-reported)",
         false,
     );
 }
